@@ -1,6 +1,7 @@
 // Go→Lean translator for the path machinery (property C19): cty/path.go — GetAttrStep.Apply, IndexStep.Apply,
-// Path.Apply, Path.LastStep, Path.Equals, Path.HasPrefix, Path.Copy and the path constructors — and cty/path_set.go —
-// pathSetRules.Hash, Equivalent, SameRules.  It writes lean/CtyModel/Generated/PathFns.lean; Lemmas/PathFnsTie.lean
+// Path.Apply, Path.LastStep, Path.Equals, Path.HasPrefix, Path.Copy and the path constructors — cty/path_set.go —
+// pathSetRules.Hash, Equivalent, SameRules and the PathSet methods (NewPathSet excepted) — and Walk / walk of
+// cty/walk.go.  It writes lean/CtyModel/Generated/PathFns.lean; Lemmas/PathFnsTie.lean
 // proves the generated definitions equal to the hand-written model (CtyModel/Path.lean, PathSet.lean), so the C19
 // theorems about paths and path sets are re-checked against what the source says on every run.
 //
@@ -11,6 +12,11 @@
 //	             xs[i] = e (a slice under construction) | copy(dst, src) | h.Write(bs) | panic(…)
 //	             if [init;] c {…} [else …] | switch [tag] { case …: … [default: …] } | switch [x :=] y.(type) {…}
 //	             for [i][, v] := range <path> {…}   (no nesting, no break/continue/labels)
+//	             for it := <set>.Iterator(); it.Next(); {… it.Value() …}
+//	             for it := <value>.ElementIterator(); it.Next(); { k, e := it.Element() … }
+//	             for i := a; i <= b; i++ {…}  (also <; a, b and i not assigned in the body: Int.toNat (b - a + 1) iterations)
+//	             s.set.Add(p) | s.Add(p)  (a PathSet method without a result returns the new state of the wrapped set)
+//	             x…, err := f(…, cb) | x, err := cb(…) | return f(…, cb)   (callbacks, see below)
 //	             return e… (the error result statically nil or non-nil)
 //	expressions  identifiers, field selection on a step struct, K{Field: e}, Path{}, len, make(Path, n), xs[i], xs[:n],
 //	             !, &&, ||, ==, != (also against nil, NilVal, the primitive types), <, >, <=, >=, +, - on int,
@@ -20,6 +26,9 @@
 //
 // A Go `(T…, error)` function is read as `Res (T…)`; whether an error variable is nil is tracked statically (every
 // call that returns an error splits the translation into the two continuations), so `if err != nil` folds.
+// A function with a callback parameter `func(Path, Value) (bool, error)` is read as in CtyModel/Walk.lean: it takes
+// the log of callback invocations so far and returns the log with its outcome; the callback is a `Walk.WalkCb`.  A
+// declared recursive root (`walk`) gets a fuel argument, its loops take the recursion as `self`.
 package main
 
 import (
@@ -38,9 +47,15 @@ var ptRoots = []string{
 	"GetAttrStep.Apply", "IndexStep.Apply", "Path.Apply", "Path.LastStep", "Path.Equals", "Path.HasPrefix", "Path.Copy",
 	"Path.Index", "Path.IndexInt", "Path.IndexString", "Path.GetAttr", "IndexPath", "IndexIntPath", "IndexStringPath", "GetAttrPath",
 	"pathSetRules.Hash", "pathSetRules.Equivalent", "pathSetRules.SameRules",
+	"PathSet.Add", "PathSet.AddAllSteps", "PathSet.Has", "PathSet.List", "PathSet.Remove", "PathSet.Empty",
+	"PathSet.Union", "PathSet.Intersection", "PathSet.Subtract", "PathSet.SymmetricDifference", "PathSet.Equal",
+	"Walk",
 }
 
-var ptFiles = map[string]bool{"path.go": true, "path_set.go": true}
+// functions that may call themselves: translated with a fuel argument
+var ptRecRoots = map[string]bool{"walk": true}
+
+var ptFiles = map[string]bool{"path.go": true, "path_set.go": true, "walk.go": true}
 
 type ptShape int
 
@@ -63,6 +78,12 @@ const (
 	ptRules
 	ptMarks
 	ptEmpty // pathSetRules{}
+	ptSet   // set.Set[Path]
+	ptPSet  // PathSet: the struct around its one field `set`
+	ptPaths // []Path
+	ptIter  // the iterator variable of a loop
+	ptCb    // func(Path, Value) (bool, error)
+	ptLog   // the invocations of the callback so far
 	ptPoison
 	ptNil
 	ptNilVal
@@ -98,6 +119,14 @@ func ptLeanType(sh ptShape) string {
 		return "PathGo.RulesImpl"
 	case ptMarks:
 		return "List String"
+	case ptSet, ptPSet:
+		return "SetImpl (List PathStep)"
+	case ptPaths:
+		return "List (List PathStep)"
+	case ptCb:
+		return "Walk.WalkCb"
+	case ptLog:
+		return "List Walk.Visit"
 	}
 	panic("ptLeanType")
 }
@@ -163,17 +192,19 @@ type ptPrim struct {
 }
 
 var ptValueMethods = map[string]ptPrim{
-	"IsNull":    {"Value.isNull", nil, ptBool, false},
-	"IsKnown":   {"Value.isKnown", nil, ptBool, false},
-	"IsMarked":  {"Value.isMarked", nil, ptBool, false},
-	"Type":      {"Value.ty", nil, ptTy, false},
-	"HasIndex":  {"Value.hasIndex", []ptShape{ptVal}, ptVal, true},
-	"Index":     {"Value.index", []ptShape{ptVal}, ptVal, true},
-	"GetAttr":   {"Value.getAttr", []ptShape{ptStr}, ptVal, true},
-	"True":      {"Value.isTrue", nil, ptBool, false},
-	"False":     {"PathGo.valFalse", nil, ptBool, false},
-	"Equals":    {"Value.equals", []ptShape{ptVal}, ptVal, true},
-	"RawEquals": {"Value.rawEquals X", []ptShape{ptVal}, ptBool, true},
+	"IsNull":             {"Value.isNull", nil, ptBool, false},
+	"IsKnown":            {"Value.isKnown", nil, ptBool, false},
+	"IsMarked":           {"Value.isMarked", nil, ptBool, false},
+	"Type":               {"Value.ty", nil, ptTy, false},
+	"HasIndex":           {"Value.hasIndex", []ptShape{ptVal}, ptVal, true},
+	"Index":              {"Value.index", []ptShape{ptVal}, ptVal, true},
+	"GetAttr":            {"Value.getAttr", []ptShape{ptStr}, ptVal, true},
+	"True":               {"Value.isTrue", nil, ptBool, false},
+	"False":              {"PathGo.valFalse", nil, ptBool, false},
+	"Equals":             {"Value.equals", []ptShape{ptVal}, ptVal, true},
+	"RawEquals":          {"Value.rawEquals X", []ptShape{ptVal}, ptBool, true},
+	"AsString":           {"PathGo.asString", nil, ptStr, true},
+	"CanIterateElements": {"PathGo.canIterateElements", nil, ptBool, false},
 }
 
 var ptTypeMethods = map[string]ptPrim{
@@ -232,6 +263,12 @@ func ptTypeShape(n ast.Node, s string) ptShape {
 		return ptErr
 	case "set.Rules[Path]":
 		return ptRules
+	case "PathSet":
+		return ptPSet
+	case "[]Path":
+		return ptPaths
+	case "func(Path, Value) (bool, error)":
+		return ptCb
 	}
 	if ptKindOf(s) != nil {
 		return ptStruct
@@ -256,11 +293,36 @@ type ptUnit struct {
 	rets       []ptShape // without the error
 	hasErr     bool
 	needsX     bool
+	needsR     bool
+	traced     bool   // takes a callback: threads the log of its invocations, returns log × outcome
+	cbName     string // Go name of the callback parameter
+	cbLean     string
+	proc       bool   // no result: the unit returns the new state of its receiver's set
+	recvName   string // Go name of the receiver (procs)
 	inProgress bool
 	lines      string
 }
 
 func (u *ptUnit) retType() string {
+	if u.traced {
+		return "List Walk.Visit × " + u.resType()
+	}
+	return u.resType()
+}
+
+// selfSig: the type of a recursive root once X, R and the callback are fixed
+func (u *ptUnit) selfSig() string {
+	var ts []string
+	for _, p := range u.params {
+		ts = append(ts, atomType(p.typ))
+	}
+	return strings.Join(append(ts, u.retType()), " → ")
+}
+
+func (u *ptUnit) resType() string {
+	if len(u.rets) == 0 {
+		return "Res Unit"
+	}
 	var ts []string
 	for _, r := range u.rets {
 		ts = append(ts, atomType(ptLeanType(r)))
@@ -319,6 +381,39 @@ func (c *ptCtx) fresh(base, typ string) string {
 	return n
 }
 
+const ptLogKey = "·log"
+
+// wrapT: the binds around a body; in a traced unit the callback log is handed to every early exit
+func (c *ptCtx) wrapT(en ptEnv, bs []bind, body string) string {
+	if !c.u.traced {
+		return wrap(bs, body)
+	}
+	for i := len(bs) - 1; i >= 0; i-- {
+		body = "(PathGo.bindT " + en[ptLogKey].e + " " + bs[i].rhs + " fun " + bs[i].pat + " =>\n" + body + ")"
+	}
+	return body
+}
+
+// the three ways a function ends
+func (c *ptCtx) okT(en ptEnv, e string) string {
+	if c.u.traced {
+		return "(" + en[ptLogKey].e + ", Res.ok " + e + ")"
+	}
+	return "(Res.ok " + e + ")"
+}
+func (c *ptCtx) errT(en ptEnv, tag string) string {
+	if c.u.traced {
+		return "(" + en[ptLogKey].e + ", Res.err " + tag + ")"
+	}
+	return "(Res.err " + tag + ")"
+}
+func (c *ptCtx) panicT(en ptEnv, msg string) string {
+	if c.u.traced {
+		return "(" + en[ptLogKey].e + ", Res.panic " + msg + ")"
+	}
+	return "(Res.panic " + msg + ")"
+}
+
 func ptBoolV(e string) ptVal_ { return ptVal_{sh: ptBool, e: e} }
 func ptConst(b bool) ptVal_ {
 	if b {
@@ -333,22 +428,25 @@ func (t *ptTr) use(goName, lean string) { t.used[goName] = lean }
 
 func (t *ptTr) ensure(key string, at ast.Node) *ptUnit {
 	if u := t.units[key]; u != nil {
-		if u.inProgress {
-			dieAt(at, "recursion through %s (no recursive function is in this fragment)", key)
+		if u.inProgress && !ptRecRoots[key] {
+			dieAt(at, "recursion through %s, which is not a declared recursive root of the translation", key)
 		}
 		return u
 	}
 	fd := t.funcs[key]
 	if fd == nil {
-		dieAt(at, "call of %s, which is neither a function of cty/path.go, cty/path_set.go nor part of the given API", key)
+		dieAt(at, "call of %s, which is neither a function of cty/path.go, cty/path_set.go, cty/walk.go nor part of the given API", key)
 	}
 	return t.translate(key, fd)
 }
 
 func (t *ptTr) translate(key string, fd *ast.FuncDecl) *ptUnit {
 	u := &ptUnit{key: key, name: strings.ReplaceAll(key, ".", "_"), recvSh: -1, inProgress: true}
+	if key == "Walk" { // `Walk` is a namespace of the model
+		u.name = "go_Walk"
+	}
 	t.units[key] = u
-	c := &ptCtx{t: t, u: u, ltype: map[string]string{"X": "SetOracle"}, order: []string{"X"}}
+	c := &ptCtx{t: t, u: u, ltype: map[string]string{"X": "SetOracle", "R": "Rules (List PathStep)"}, order: []string{"X", "R"}}
 	en := ptEnv{}
 	addParam := func(goName string, sh ptShape) ptVal_ {
 		n := c.fresh(goName, ptLeanType(sh))
@@ -383,15 +481,29 @@ func (t *ptTr) translate(key string, fd *ast.FuncDecl) *ptUnit {
 		case ts == "pathSetRules":
 			u.recvSh = ptEmpty
 			en = en.with(rn, ptVal_{sh: ptEmpty})
+		case ts == "PathSet":
+			u.recvSh = ptPSet
+			if rn == "" {
+				rn = "recv"
+			}
+			u.recvName = rn
+			v := addParam(rn+"_set", ptPSet)
+			en = en.with(rn, v)
 		default:
 			dieAt(r, "receiver type %s", ts)
+		}
+	}
+	for _, f := range fd.Type.Params.List { // a callback parameter makes the unit a traced one: the log comes first
+		if _, ok := f.Type.(*ast.FuncType); ok && !u.traced {
+			u.traced = true
+			en = en.with(ptLogKey, addParam("log", ptLog))
 		}
 	}
 	for _, f := range fd.Type.Params.List {
 		if _, ok := f.Type.(*ast.Ellipsis); ok {
 			dieAt(f, "variadic parameter")
 		}
-		sh := ptTypeShape(f.Type, src(f.Type))
+		sh := ptTypeShape(f.Type, strings.Join(strings.Fields(src(f.Type)), " "))
 		if sh == ptStruct || sh == ptErr {
 			dieAt(f, "parameter of type %s", src(f.Type))
 		}
@@ -400,11 +512,27 @@ func (t *ptTr) translate(key string, fd *ast.FuncDecl) *ptUnit {
 		}
 		for _, nm := range f.Names {
 			u.goParams = append(u.goParams, ptParam{nm.Name, sh})
+			if sh == ptCb { // fixed through the recursion: declared before the colon
+				if u.cbName != "" {
+					dieAt(f, "a second callback parameter")
+				}
+				u.cbName, u.cbLean = nm.Name, c.fresh(nm.Name, ptLeanType(ptCb))
+				en = en.with(nm.Name, ptVal_{sh: ptCb, e: u.cbLean})
+				continue
+			}
 			en = en.with(nm.Name, addParam(nm.Name, sh))
 		}
 	}
+	if ptRecRoots[key] {
+		c.ltype["self"] = u.selfSig()
+		c.order = append(c.order, "self")
+	}
 	if fd.Type.Results == nil || len(fd.Type.Results.List) == 0 {
-		dieAt(fd, "function without a result")
+		if u.recvSh != ptPSet {
+			dieAt(fd, "function without a result")
+		}
+		u.proc, u.rets = true, []ptShape{ptPSet}
+		fd.Type.Results = &ast.FieldList{}
 	}
 	for i, r := range fd.Type.Results.List {
 		if len(r.Names) != 0 {
@@ -412,7 +540,7 @@ func (t *ptTr) translate(key string, fd *ast.FuncDecl) *ptUnit {
 		}
 		sh := ptTypeShape(r.Type, src(r.Type))
 		switch {
-		case sh == ptErr && i == len(fd.Type.Results.List)-1 && i > 0:
+		case sh == ptErr && i == len(fd.Type.Results.List)-1:
 			u.hasErr = true
 		case sh == ptStep:
 			u.rets = append(u.rets, ptStepOpt)
@@ -423,10 +551,14 @@ func (t *ptTr) translate(key string, fd *ast.FuncDecl) *ptUnit {
 		}
 	}
 	body := c.block(fd.Body.List, en, func(e ptEnv) string {
+		if u.proc {
+			return c.okT(e, e[u.recvName].e)
+		}
 		dieAt(fd.Body, "control reaches the end of a function with a result")
 		return ""
 	})
 	u.needsX = tokens(body)["X"]
+	u.needsR = tokens(body)["R"]
 	u.inProgress = false
 	p0, p1 := fset.Position(fd.Pos()), fset.Position(fd.End())
 	u.lines = fmt.Sprintf("cty/%s:%d-%d", t.file[key], p0.Line, p1.Line)
@@ -435,12 +567,54 @@ func (t *ptTr) translate(key string, fd *ast.FuncDecl) *ptUnit {
 	if u.needsX {
 		ps = append(ps, "(X : SetOracle)")
 	}
+	if u.needsR {
+		ps = append(ps, "(R : Rules (List PathStep))")
+	}
+	fixedNames := ""
+	if u.needsX {
+		fixedNames += " X"
+	}
+	if u.needsR {
+		fixedNames += " R"
+	}
+	if u.cbLean != "" {
+		ps = append(ps, fmt.Sprintf("(%s : %s)", u.cbLean, ptLeanType(ptCb)))
+		fixedNames += " " + u.cbLean
+	}
+	fixed := strings.Join(ps, " ")
+	var names []string
 	for _, p := range u.params {
 		ps = append(ps, fmt.Sprintf("(%s : %s)", p.name, p.typ))
+		names = append(names, p.name)
 	}
-	t.out = append(t.out, strings.Join(strings.Fields(fmt.Sprintf("%sdef %s %s", "", u.name, strings.Join(ps, " "))), " "))
-	t.out[len(t.out)-1] = doc + t.out[len(t.out)-1] + " : " + u.retType() + " :=\n" + indent(body) + "\n"
 	t.order = append(t.order, u)
+	if tokens(body)["self"] { // a recursive root: fuel
+		var fuel, under []string
+		for i, p := range u.params {
+			if p.typ == "Value" {
+				fuel = append(fuel, "(Payload.depth (Value.v "+p.name+"))")
+			}
+			if i == 0 && u.traced {
+				under = append(under, p.name)
+			} else {
+				under = append(under, "_")
+			}
+		}
+		if len(fuel) == 0 {
+			dieAt(fd, "recursive root without a Value argument to take the fuel from")
+		}
+		out0 := "Res.unmodelled"
+		if u.traced {
+			out0 = "(" + u.params[0].name + ", Res.unmodelled)"
+		}
+		body = replaceToken(body, "self", "("+u.name+"_fuel"+fixedNames+" fuel)")
+		t.out = append(t.out, fmt.Sprintf("%sdef %s_fuel %s : Nat → %s\n  | 0, %s => %s\n  | fuel + 1, %s =>\n%s\n\ndef %s %s : %s :=\n  %s_fuel%s (%s + 1) %s\n",
+			doc, u.name, fixed, u.selfSig(), strings.Join(under, ", "), out0, strings.Join(names, ", "), indent(indent(body)),
+			u.name, strings.Join(ps, " "), u.retType(), u.name, fixedNames, strings.Join(fuel, " + "), strings.Join(names, " ")))
+		return u
+	}
+	t.out = append(t.out, strings.Join(strings.Fields(fmt.Sprintf("def %s %s", u.name, strings.Join(ps, " "))), " "))
+	t.out[len(t.out)-1] = doc + t.out[len(t.out)-1] + " : " + u.retType() + " :=\n" + indent(body) + "\n"
 	return u
 }
 
@@ -448,6 +622,9 @@ func (c *ptCtx) callText(u *ptUnit, args []string) string {
 	head := u.name
 	if u.needsX {
 		head += " X"
+	}
+	if u.needsR {
+		head += " R"
 	}
 	return strings.Join(strings.Fields("("+head+" "+strings.Join(args, " ")+")"), " ")
 }
@@ -510,11 +687,11 @@ func (c *ptCtx) stmts(list []ast.Stmt, entry, cur ptEnv, decl map[string]bool, k
 		}
 		switch v.konst {
 		case 1:
-			return wrap(bs, thenT())
+			return c.wrapT(cur, bs, thenT())
 		case 2:
-			return wrap(bs, elseT())
+			return c.wrapT(cur, bs, elseT())
 		}
-		return wrap(bs, "(if "+v.e+" then\n"+indent(thenT())+"\nelse\n"+indent(elseT())+")")
+		return c.wrapT(cur, bs, "(if "+v.e+" then\n"+indent(thenT())+"\nelse\n"+indent(elseT())+")")
 	case *ast.SwitchStmt:
 		return c.switchStmt(s, list[1:], entry, cur, decl, k)
 	case *ast.TypeSwitchStmt:
@@ -525,6 +702,9 @@ func (c *ptCtx) stmts(list []ast.Stmt, entry, cur ptEnv, decl map[string]bool, k
 			vs := gd.Specs[0].(*ast.ValueSpec)
 			if len(vs.Names) == 1 && len(vs.Values) == 0 && vs.Type != nil && src(vs.Type) == "error" {
 				return next(cur.with(vs.Names[0].Name, ptVal_{sh: ptErr, konst: 1}), declWith(decl, vs.Names[0].Name))
+			}
+			if len(vs.Names) == 1 && len(vs.Values) == 0 && vs.Type != nil && src(vs.Type) == "Path" { // the nil path
+				return next(cur.with(vs.Names[0].Name, ptVal_{sh: ptPath, e: "([] : List PathStep)"}), declWith(decl, vs.Names[0].Name))
 			}
 		}
 		dieAt(s, "declaration %s", src(s))
@@ -538,6 +718,8 @@ func (c *ptCtx) stmts(list []ast.Stmt, entry, cur ptEnv, decl map[string]bool, k
 		return c.assign(s, cur, decl, next)
 	case *ast.RangeStmt:
 		return c.rangeStmt(s, cur, nextSame)
+	case *ast.ForStmt:
+		return c.forStmt(s, cur, nextSame)
 	}
 	dieAt(list[0], "statement %s", strings.TrimPrefix(fmt.Sprintf("%T", list[0]), "*ast."))
 	return ""
@@ -598,7 +780,7 @@ func (c *ptCtx) switchStmt(s *ast.SwitchStmt, rest []ast.Stmt, entry, cur ptEnv,
 	if deflt != nil {
 		last.Else = deflt
 	}
-	return wrap(tagBs, c.stmts(append([]ast.Stmt{chain}, rest...), entry, cur, decl, k))
+	return c.wrapT(cur, tagBs, c.stmts(append([]ast.Stmt{chain}, rest...), entry, cur, decl, k))
 }
 
 // switch [x :=] y.(type) {…} over a PathStep: one arm per implementation
@@ -683,7 +865,7 @@ func (c *ptCtx) typeSwitch(s *ast.TypeSwitchStmt, cur ptEnv, next func(ptEnv) st
 			texts = append(texts, "| _ =>\n"+indent(next(cur)))
 		}
 	}
-	return wrap(bs, "(match "+x.e+" with\n"+strings.Join(texts, "\n")+")")
+	return c.wrapT(cur, bs, "(match "+x.e+" with\n"+strings.Join(texts, "\n")+")")
 }
 
 // an error value in a return statement or an assignment
@@ -712,6 +894,10 @@ func (c *ptCtx) coerce(n ast.Node, v ptVal_, want ptShape) ([]bind, string) {
 		return nil, "(some " + v.pack() + ")"
 	case want == ptStep && v.sh == ptStruct:
 		return nil, v.pack()
+	case want == ptPaths && v.sh == ptNil:
+		return nil, "([] : List (List PathStep))"
+	case want == ptSet && v.sh == ptPSet:
+		return nil, v.e
 	case want == ptPath && v.sh == ptPathOpt:
 		x := c.fresh("done", ptLeanType(ptPath))
 		c.t.use("a constructed slice used as a Path", "PathGo.sliceDone")
@@ -723,9 +909,27 @@ func (c *ptCtx) coerce(n ast.Node, v ptVal_, want ptShape) ([]bind, string) {
 
 func (c *ptCtx) ret(s *ast.ReturnStmt, cur ptEnv) string {
 	u := c.u
+	if u.proc {
+		if len(s.Results) != 0 {
+			dieAt(s, "return with a value")
+		}
+		return c.okT(cur, cur[u.recvName].e)
+	}
 	want := len(u.rets)
 	if u.hasErr {
 		want++
+	}
+	if len(s.Results) == 1 {
+		call, _ := s.Results[0].(*ast.CallExpr)
+		if call == nil {
+		} else if kind, bs, text, _, rets, hasErr := c.tracedCall(call, cur); kind == "unit" {
+			if hasErr != u.hasErr || fmt.Sprint(rets) != fmt.Sprint(u.rets) {
+				dieAt(s, "return %s", src(call))
+			}
+			return c.wrapT(cur, bs, text)
+		} else if kind != "" {
+			dieAt(s, "return %s", src(call))
+		}
 	}
 	if len(s.Results) == 1 && want > 1 { // return f(…)
 		call, ok := s.Results[0].(*ast.CallExpr)
@@ -741,7 +945,7 @@ func (c *ptCtx) ret(s *ast.ReturnStmt, cur ptEnv) string {
 				dieAt(s, "return %s", src(s.Results[0]))
 			}
 		}
-		return wrap(bs, text)
+		return c.wrapT(cur, bs, text)
 	}
 	if len(s.Results) != want {
 		dieAt(s, "return with %d values", len(s.Results))
@@ -754,7 +958,7 @@ func (c *ptCtx) ret(s *ast.ReturnStmt, cur ptEnv) string {
 					dieAt(r, "result %s next to an error", src(r))
 				}
 			}
-			return "(Res.err " + ev.e + ")"
+			return c.errT(cur, ev.e)
 		}
 	}
 	var bs []bind
@@ -767,11 +971,14 @@ func (c *ptCtx) ret(s *ast.ReturnStmt, cur ptEnv) string {
 	}
 	if len(parts) == 1 {
 		if n := len(bs); n > 0 && bs[n-1].pat == parts[0] {
-			return wrap(bs[:n-1], bs[n-1].rhs) // tail call
+			return c.wrapT(cur, bs[:n-1], bs[n-1].rhs) // tail call
 		}
-		return wrap(bs, "(Res.ok "+parts[0]+")")
+		return c.wrapT(cur, bs, c.okT(cur, parts[0]))
 	}
-	return wrap(bs, "(Res.ok ("+strings.Join(parts, ", ")+"))")
+	if len(parts) == 0 {
+		return c.okT(cur, "()")
+	}
+	return c.wrapT(cur, bs, c.okT(cur, "("+strings.Join(parts, ", ")+")"))
 }
 
 // a call used as a statement: panic, copy, h.Write
@@ -794,7 +1001,7 @@ func (c *ptCtx) callStmt(call *ast.CallExpr, cur ptEnv, next func(ptEnv) string)
 					}
 				}
 			}
-			return "(Res.panic " + leanStr(msg) + ")"
+			return c.panicT(cur, leanStr(msg))
 		case "copy":
 			if len(call.Args) == 2 {
 				dn := identName(call.Args[0])
@@ -802,7 +1009,7 @@ func (c *ptCtx) callStmt(call *ast.CallExpr, cur ptEnv, next func(ptEnv) string)
 				bs, sv := c.expr(call.Args[1], cur)
 				if ok && dst.sh == ptPathOpt && sv.sh == ptPath {
 					c.t.use("copy(dst, src)", "PathGo.sliceCopy")
-					return wrap(bs, next(cur.with(dn, ptVal_{sh: ptPathOpt, e: "(PathGo.sliceCopy " + dst.e + " " + sv.e + ")"})))
+					return c.wrapT(cur, bs, next(cur.with(dn, ptVal_{sh: ptPathOpt, e: "(PathGo.sliceCopy " + dst.e + " " + sv.e + ")"})))
 				}
 			}
 			dieAt(call, "call %s", src(call))
@@ -816,7 +1023,27 @@ func (c *ptCtx) callStmt(call *ast.CallExpr, cur ptEnv, next func(ptEnv) string)
 					dieAt(call.Args[0], "argument %s of Write", src(call.Args[0]))
 				}
 				c.t.use("hash.Hash64.Write", "PathGo.crcWrite")
-				return wrap(bs, next(cur.with(id.Name, ptVal_{sh: ptHash, e: "(PathGo.crcWrite " + h.e + " " + a.e + ")"})))
+				return c.wrapT(cur, bs, next(cur.with(id.Name, ptVal_{sh: ptHash, e: "(PathGo.crcWrite " + h.e + " " + a.e + ")"})))
+			}
+		}
+	}
+	if sel, ok := call.Fun.(*ast.SelectorExpr); ok {
+		root := ptRootIdent(sel.X)
+		if rv, ok := cur[root]; ok && rv.sh == ptPSet {
+			_, x := c.expr(sel.X, cur)
+			switch {
+			case x.sh == ptSet && (sel.Sel.Name == "Add" || sel.Sel.Name == "Remove"): // s.set.Add(p)
+				lean := map[string]string{"Add": "SetImpl.add", "Remove": "SetImpl.remove"}[sel.Sel.Name]
+				bs, args := c.argsOf(call, cur, []ptShape{ptPath})
+				c.t.use("set.Set[Path]."+sel.Sel.Name, lean+" R")
+				return c.wrapT(cur, bs, next(cur.with(root, ptVal_{sh: ptPSet, e: "(" + lean + " R " + x.e + " " + args[0] + ")"})))
+			case x.sh == ptPSet: // a method of PathSet without a result: it returns the new state
+				bs, text, _, _, _ := c.unitCall("PathSet."+sel.Sel.Name, []string{x.e}, call, cur)
+				if u := c.t.units["PathSet."+sel.Sel.Name]; !u.proc {
+					dieAt(call, "call %s used as a statement has no modelled effect", src(call))
+				}
+				n := c.fresh(root+"_set", ptLeanType(ptPSet))
+				return c.wrapT(cur, append(bs, bind{n, text}), next(cur.with(root, ptVal_{sh: ptPSet, e: n})))
 			}
 		}
 	}
@@ -856,7 +1083,12 @@ func (c *ptCtx) assign(s *ast.AssignStmt, cur ptEnv, decl map[string]bool, next 
 			dieAt(n, "value %s cannot be stored in a variable", src(n))
 		}
 	}
-	if len(s.Rhs) == 1 && len(s.Lhs) >= 2 {
+	tracedRhs := false
+	if call, ok := s.Rhs[0].(*ast.CallExpr); ok && len(s.Rhs) == 1 {
+		kind, _, _, _, _, _ := c.tracedCall(call, cur)
+		tracedRhs = kind != ""
+	}
+	if len(s.Rhs) == 1 && (len(s.Lhs) >= 2 || tracedRhs) {
 		var names []string
 		for _, l := range s.Lhs {
 			names = append(names, identName(l))
@@ -876,7 +1108,7 @@ func (c *ptCtx) assign(s *ast.AssignStmt, cur ptEnv, decl map[string]bool, next 
 			if x.sh == ptRules && src(r.Type) == "pathSetRules" {
 				e, d := bindVar(cur, decl, vName, ptVal_{sh: ptEmpty})
 				e, d = bindVar(e, d, okName, ptConst(true))
-				return wrap(bs, "(match "+x.e+" with\n| PathGo.RulesImpl.pathSetRules =>\n"+indent(next(e, d))+"\n| _ =>\n"+indent(fail())+")")
+				return c.wrapT(cur, bs, "(match "+x.e+" with\n| PathGo.RulesImpl.pathSetRules =>\n"+indent(next(e, d))+"\n| _ =>\n"+indent(fail())+")")
 			}
 			k := ptKindOf(src(r.Type))
 			if x.sh != ptStep || k == nil {
@@ -894,7 +1126,7 @@ func (c *ptCtx) assign(s *ast.AssignStmt, cur ptEnv, decl map[string]bool, next 
 			}
 			e, d := bindVar(cur, decl, vName, k.mk(ex))
 			e, d = bindVar(e, d, okName, ptConst(true))
-			return wrap(bs, "(match "+x.e+" with\n| "+pat+" =>\n"+indent(next(e, d))+"\n| _ =>\n"+indent(fail())+")")
+			return c.wrapT(cur, bs, "(match "+x.e+" with\n| "+pat+" =>\n"+indent(next(e, d))+"\n| _ =>\n"+indent(fail())+")")
 		case *ast.CallExpr:
 			if sel, ok := r.Fun.(*ast.SelectorExpr); ok && sel.Sel.Name == "Unmark" && len(r.Args) == 0 && len(names) == 2 {
 				bs, x := c.expr(sel.X, cur)
@@ -902,10 +1134,30 @@ func (c *ptCtx) assign(s *ast.AssignStmt, cur ptEnv, decl map[string]bool, next 
 					c.t.use("Value.Unmark", "(Value.unmark, Value.marks)")
 					e, d := bindVar(cur, decl, names[0], ptVal_{sh: ptVal, e: "(Value.unmark " + x.e + ")"})
 					e, d = bindVar(e, d, names[1], ptVal_{sh: ptMarks, e: "(Value.marks " + x.e + ")"})
-					return wrap(bs, next(e, d))
+					return c.wrapT(cur, bs, next(e, d))
 				}
 			}
-			bs, text, rets, hasErr, isRes := c.callRaw(r, cur)
+			if sel, ok := r.Fun.(*ast.SelectorExpr); ok && sel.Sel.Name == "Element" && len(r.Args) == 0 && len(names) == 2 {
+				if _, x := c.expr(sel.X, cur); x.sh == ptIter && x.fields["Key"].e != "" { // k, v := it.Element()
+					e, d := bindVar(cur, decl, names[0], x.fields["Key"])
+					e, d = bindVar(e, d, names[1], x.fields["Elem"])
+					return next(e, d)
+				}
+			}
+			var bs []bind
+			var text, logAfter string
+			var rets []ptShape
+			var hasErr, isRes bool
+			kind := ""
+			if tracedRhs {
+				kind, bs, text, logAfter, rets, hasErr = c.tracedCall(r, cur)
+				isRes = true
+				if !hasErr {
+					dieAt(s, "assignment %s", src(s))
+				}
+			} else {
+				bs, text, rets, hasErr, isRes = c.callRaw(r, cur)
+			}
 			want := len(rets)
 			if hasErr {
 				want++
@@ -932,14 +1184,26 @@ func (c *ptCtx) assign(s *ast.AssignStmt, cur ptEnv, decl map[string]bool, next 
 				}
 				e, d = bindVar(e, d, names[i], ptVal_{sh: sh, e: n})
 			}
-			pat := pats[0]
-			if len(pats) > 1 {
+			pat := "_"
+			if len(pats) == 1 {
+				pat = pats[0]
+			} else if len(pats) > 1 {
 				pat = "(" + strings.Join(pats, ", ") + ")"
 			}
 			if !hasErr {
-				return wrap(append(bs, bind{pat, text}), next(e, d))
+				return c.wrapT(cur, append(bs, bind{pat, text}), next(e, d))
 			}
 			errName := names[len(names)-1]
+			log2 := ""
+			switch kind {
+			case "cb":
+				log2 = logAfter
+			case "unit":
+				log2 = c.fresh("log", ptLeanType(ptLog))
+			}
+			if kind != "" {
+				e = e.with(ptLogKey, ptVal_{sh: ptLog, e: log2})
+			}
 			eOk, dOk := bindVar(e, d, errName, ptVal_{sh: ptErr, konst: 1})
 			okT := next(eOk, dOk)
 			// the failure continuation: what is returned next to a non-nil error is not modelled
@@ -949,8 +1213,17 @@ func (c *ptCtx) assign(s *ast.AssignStmt, cur ptEnv, decl map[string]bool, next 
 				e, d = bindVar(e, d, names[i], ptVal_{sh: ptPoison, why: "the value returned next to a non-nil error"})
 			}
 			e, d = bindVar(e, d, errName, ptVal_{sh: ptErr, konst: 2, e: tag})
+			if kind != "" {
+				e = e.with(ptLogKey, ptVal_{sh: ptLog, e: log2})
+			}
 			errT := next(e, d)
-			return wrap(bs, "(PathGo.callE "+text+"\n  (fun "+pat+" =>\n"+indent(indent(okT))+")\n  (fun "+tag+" =>\n"+indent(indent(errT))+"))")
+			switch kind {
+			case "cb": // the invocation is on the log however the callback ends
+				return c.wrapT(cur, bs, "(PathGo.callCb "+log2+" "+text+"\n  (fun "+pat+" =>\n"+indent(indent(okT))+")\n  (fun "+tag+" =>\n"+indent(indent(errT))+"))")
+			case "unit":
+				return c.wrapT(cur, bs, "(PathGo.callT "+text+"\n  (fun "+log2+" "+pat+" =>\n"+indent(indent(okT))+")\n  (fun "+log2+" "+tag+" =>\n"+indent(indent(errT))+"))")
+			}
+			return c.wrapT(cur, bs, "(PathGo.callE "+text+"\n  (fun "+pat+" =>\n"+indent(indent(okT))+")\n  (fun "+tag+" =>\n"+indent(indent(errT))+"))")
 		}
 		dieAt(s, "assignment %s", src(s))
 	}
@@ -970,7 +1243,7 @@ func (c *ptCtx) assign(s *ast.AssignStmt, cur ptEnv, decl map[string]bool, next 
 			dieAt(s, "error value %s", src(s.Rhs[0]))
 		}
 		e, d := bindVar(cur, decl, name, v)
-		return wrap(bs, next(e, d))
+		return c.wrapT(cur, bs, next(e, d))
 	case *ast.IndexExpr: // xs[i] = v
 		name := identName(l.X)
 		tgt, ok := cur[name]
@@ -987,7 +1260,7 @@ func (c *ptCtx) assign(s *ast.AssignStmt, cur ptEnv, decl map[string]bool, next 
 		n := c.fresh(name, ptLeanType(ptPathOpt))
 		c.t.use("xs[i] = v", "PathGo.sliceSet")
 		bs = append(append(append(bs, bs2...), bs3...), bind{n, "(PathGo.sliceSet " + tgt.e + " " + i.e + " " + ve + ")"})
-		return wrap(bs, next(cur.with(name, ptVal_{sh: ptPathOpt, e: n}), decl))
+		return c.wrapT(cur, bs, next(cur.with(name, ptVal_{sh: ptPathOpt, e: n}), decl))
 	}
 	dieAt(s, "assignment to %s", src(s.Lhs[0]))
 	return ""
@@ -1026,6 +1299,9 @@ func ptAssignedOuter(body *ast.BlockStmt, cur ptEnv) []string {
 				if sel, ok := call.Fun.(*ast.SelectorExpr); ok {
 					if id, ok := sel.X.(*ast.Ident); ok && hasPtKey(cur, id.Name) && cur[id.Name].sh == ptHash {
 						set[id.Name] = true
+					}
+					if root := ptRootIdent(sel.X); hasPtKey(cur, root) && cur[root].sh == ptPSet {
+						set[root] = true
 					}
 				}
 				if id, ok := call.Fun.(*ast.Ident); ok && id.Name == "copy" && len(call.Args) > 0 {
@@ -1070,30 +1346,155 @@ func ptDeclaredIn(body *ast.BlockStmt) map[string]bool {
 	return m
 }
 
+// ptLoopKind: how a loop walks — over a list (range, iterator) or by counting
+type ptLoopKind struct {
+	node     ast.Node
+	body     *ast.BlockStmt
+	descr    string
+	ranged   string // Go name of the collection the loop must not assign ("" if it is not a plain variable)
+	pre      []bind // evaluation of the loop header
+	elemType string // list loops: Lean type of an element
+	list     string // list loops: the Lean list
+	keyName  string // list loops: Go name of the index variable ("" = none)
+	headBase string
+	setup    func(body ptEnv, head string) ptEnv // list loops: bind the Go variables that stand for the current element
+	count    string                              // counting loops: number of iterations (a Nat)
+	from     string                              // counting loops: first value of the counter (an Int)
+	ctrName  string
+}
+
 func (c *ptCtx) rangeStmt(s *ast.RangeStmt, cur ptEnv, after func(ptEnv) string) string {
-	if c.inLoop {
-		dieAt(s, "nested loop")
-	}
 	if s.Tok != token.DEFINE {
 		dieAt(s, "range without :=")
 	}
-	ptNoBranch(s.Body, "loop")
 	xb, x := c.expr(s.X, cur)
 	if x.sh != ptPath {
 		dieAt(s.X, "range over %s", src(s.X))
 	}
 	keyName, valName := identName(s.Key), identName(s.Value)
+	lk := ptLoopKind{node: s, body: s.Body, descr: "for " + rangeVars(s) + " := range " + src(s.X), pre: xb, elemType: "PathStep", list: x.e,
+		keyName: keyName, headBase: "elem"}
+	if valName != "" {
+		lk.headBase = valName
+	}
+	if id, ok := s.X.(*ast.Ident); ok {
+		lk.ranged = id.Name
+	}
+	lk.setup = func(body ptEnv, head string) ptEnv {
+		if lk.ranged != "" && keyName != "" {
+			c.curXs, c.curIx, c.curElem = lk.ranged, keyName, ptVal_{sh: ptStep, e: head}
+		}
+		return body.with(valName, ptVal_{sh: ptStep, e: head})
+	}
+	return c.loop(lk, cur, after)
+}
+
+// for it := X.Iterator(); it.Next(); {…}   and   for i := a; i <= b; i++ {…}
+func (c *ptCtx) forStmt(s *ast.ForStmt, cur ptEnv, after func(ptEnv) string) string {
+	init, ok := s.Init.(*ast.AssignStmt)
+	if !ok || init.Tok != token.DEFINE || len(init.Lhs) != 1 || len(init.Rhs) != 1 || s.Cond == nil {
+		dieAt(s, "for statement %s", strings.SplitN(src(s), "{", 2)[0])
+	}
+	v := identName(init.Lhs[0])
+	hdr := "for " + src(s.Init) + "; " + src(s.Cond) + "; "
+	if s.Post != nil {
+		hdr += src(s.Post)
+	}
+	// the iterator form
+	if call, ok := init.Rhs[0].(*ast.CallExpr); ok && s.Post == nil && src(s.Cond) == v+".Next()" {
+		if sel, ok := call.Fun.(*ast.SelectorExpr); ok && len(call.Args) == 0 {
+			xb, x := c.expr(sel.X, cur)
+			if x.sh == ptSet && sel.Sel.Name == "Iterator" {
+				c.t.use("for it := set.Iterator(); it.Next(); { … it.Value() … }", "a loop over SetImpl.iter R set")
+				lk := ptLoopKind{node: s, body: s.Body, descr: strings.TrimSpace(hdr), pre: xb, elemType: "List PathStep", list: "(SetImpl.iter R " + x.e + ")",
+					headBase: "member", ranged: ptRootIdent(sel.X)}
+				lk.setup = func(body ptEnv, head string) ptEnv {
+					return body.with(v, ptVal_{sh: ptIter, fields: map[string]ptVal_{"Value": {sh: ptPath, e: head}}})
+				}
+				return c.loop(lk, cur, after)
+			}
+			if x.sh == ptVal && sel.Sel.Name == "ElementIterator" {
+				c.t.use("for it := v.ElementIterator(); it.Next(); { k, e := it.Element() … }", "a loop over PathGo.elements X v")
+				lk := ptLoopKind{node: s, body: s.Body, descr: strings.TrimSpace(hdr), pre: xb, elemType: "Value × Value", list: "(PathGo.elements X " + x.e + ")",
+					headBase: v, ranged: ptRootIdent(sel.X)}
+				lk.setup = func(body ptEnv, head string) ptEnv {
+					return body.with(v, ptVal_{sh: ptIter, fields: map[string]ptVal_{"Key": {sh: ptVal, e: head + ".1"}, "Elem": {sh: ptVal, e: head + ".2"}}})
+				}
+				return c.loop(lk, cur, after)
+			}
+		}
+		dieAt(s, "iterator loop %s", hdr)
+	}
+	// the counting form: i := a; i <= b (or i < b); i++ with a, b fixed before the loop
+	cond, ok := s.Cond.(*ast.BinaryExpr)
+	post, ok2 := s.Post.(*ast.IncDecStmt)
+	if !ok || !ok2 || post.Tok != token.INC || src(post.X) != v || src(cond.X) != v || (cond.Op != token.LEQ && cond.Op != token.LSS) {
+		dieAt(s, "for statement %s", hdr)
+	}
+	ab, a := c.expr(init.Rhs[0], cur)
+	bb, b := c.expr(cond.Y, cur)
+	a, b = ptToInt(a), ptToInt(b)
+	if a.sh != ptInt || b.sh != ptInt {
+		dieAt(s, "for statement %s", hdr)
+	}
+	assigned := map[string]bool{}
+	for _, n := range ptAssignedOuter(s.Body, cur.with(v, a)) {
+		assigned[n] = true
+	}
+	ast.Inspect(cond.Y, func(n ast.Node) bool {
+		if id, ok := n.(*ast.Ident); ok && (assigned[id.Name] || id.Name == v) {
+			dieAt(cond, "the bound %s of the loop changes in its body", src(cond.Y))
+		}
+		return true
+	})
+	if assigned[v] {
+		dieAt(s, "the loop body assigns the counter %s", v)
+	}
+	c.t.use("for i := a; i <= b; i++ {…} (a, b fixed)", "a loop of Int.toNat (b - a + 1) iterations")
+	count := "(Int.toNat ((" + b.e + " - " + a.e + ") + 1))"
+	if cond.Op == token.LSS {
+		count = "(Int.toNat (" + b.e + " - " + a.e + "))"
+	}
+	return c.loop(ptLoopKind{node: s, body: s.Body, descr: strings.TrimSpace(hdr), pre: append(ab, bb...), count: count, from: a.e, ctrName: v}, cur, after)
+}
+
+func ptRootIdent(e ast.Expr) string {
+	for {
+		switch x := e.(type) {
+		case *ast.Ident:
+			return x.Name
+		case *ast.SelectorExpr:
+			e = x.X
+		case *ast.ParenExpr:
+			e = x.X
+		default:
+			return ""
+		}
+	}
+}
+
+// loop: a structurally recursive helper whose base case is the code after the loop
+func (c *ptCtx) loop(lk ptLoopKind, cur ptEnv, after func(ptEnv) string) string {
+	s := lk.node
+	if c.inLoop {
+		dieAt(s, "nested loop")
+	}
+	ptNoBranch(lk.body, "loop")
 	c.nloops++
 	name := fmt.Sprintf("%s_loop%d", c.u.name, c.nloops)
 	hole := "«" + name + "»"
 
 	inner := cur
 	var stTypes, stPats, stInit, state []string
-	declared := ptDeclaredIn(s.Body)
-	for _, n := range ptAssignedOuter(s.Body, cur) {
+	declared := ptDeclaredIn(lk.body)
+	assigned := ptAssignedOuter(lk.body, cur)
+	if c.u.traced { // the log is part of every loop's state
+		assigned = append([]string{ptLogKey}, assigned...)
+	}
+	for _, n := range assigned {
 		v := cur[n]
-		if id, ok := s.X.(*ast.Ident); ok && id.Name == n {
-			dieAt(s, "loop assigns the slice it ranges over")
+		if lk.ranged == n {
+			dieAt(s, "loop assigns the collection it ranges over")
 		}
 		if declared[n] { // which of the two an assignment means would need scope resolution
 			dieAt(s, "the loop body both declares and assigns a variable named %s", n)
@@ -1104,8 +1505,8 @@ func (c *ptCtx) rangeStmt(s *ast.RangeStmt, cur ptEnv, after func(ptEnv) string)
 				dieAt(s, "error variable %s is not nil on entry to the loop", n)
 			}
 			continue // checked below: nil again at the end of every iteration
-		case ptVal, ptHash, ptBool, ptInt, ptPath, ptPathOpt, ptStr:
-			p := c.fresh(n, ptLeanType(v.sh))
+		case ptVal, ptHash, ptBool, ptInt, ptPath, ptPathOpt, ptStr, ptPaths, ptPSet, ptLog:
+			p := c.fresh(strings.TrimPrefix(n, "·"), ptLeanType(v.sh))
 			state = append(state, n)
 			stTypes, stPats, stInit = append(stTypes, atomType(ptLeanType(v.sh))), append(stPats, p), append(stInit, v.e)
 			inner = inner.with(n, ptVal_{sh: v.sh, e: p})
@@ -1124,42 +1525,40 @@ func (c *ptCtx) rangeStmt(s *ast.RangeStmt, cur ptEnv, after func(ptEnv) string)
 		return strings.Join(out, " ")
 	}
 	body := inner
-	idx := ""
-	if keyName != "" {
-		idx = c.fresh(keyName, "Nat")
-		body = body.with(keyName, ptVal_{sh: ptNat, e: idx})
-	}
-	head := c.fresh(func() string {
-		if valName != "" {
-			return valName
+	var stepPat, donePat, recur, initArgs, sigT string
+	if lk.count == "" {
+		idx := ""
+		if lk.keyName != "" {
+			idx = c.fresh(lk.keyName, "Nat")
+			body = body.with(lk.keyName, ptVal_{sh: ptNat, e: idx})
 		}
-		return "elem"
-	}(), "PathStep")
-	tail := c.fresh("rest", "List PathStep")
-	if valName != "" {
-		body = body.with(valName, ptVal_{sh: ptStep, e: head})
+		head := c.fresh(lk.headBase, lk.elemType)
+		tail := c.fresh("rest", "List "+atomType(lk.elemType))
+		body = lk.setup(body, head)
+		stepPat, donePat, recur, initArgs, sigT = head+" :: "+tail, "[]", tail, lk.list, "List "+atomType(lk.elemType)
+		if idx != "" {
+			stepPat, donePat, recur, initArgs, sigT = idx+", "+stepPat, "_, "+donePat, "("+idx+" + 1) "+recur, "0 "+initArgs, "Nat → "+sigT
+		}
+	} else {
+		n := c.fresh("n", "Nat")
+		ctr := c.fresh(lk.ctrName, "Int")
+		body = body.with(lk.ctrName, ptVal_{sh: ptInt, e: ctr})
+		stepPat, donePat, recur, initArgs, sigT = n+" + 1, "+ctr, "0, _", n+" ("+ctr+" + 1)", lk.count+" "+lk.from, "Nat → Int"
 	}
 	c.inLoop = true
-	if id, ok := s.X.(*ast.Ident); ok && keyName != "" {
-		c.curXs, c.curIx, c.curElem = id.Name, keyName, ptVal_{sh: ptStep, e: head}
-	}
-	idxPat, idxUnder, idxNext, idxInit, idxT := "", "", "", "", ""
-	if idx != "" {
-		idxPat, idxUnder, idxNext, idxInit, idxT = idx+", ", "_, ", "("+idx+" + 1) ", "0 ", "Nat → "
-	}
-	stepT := c.block(s.Body.List, body, func(e ptEnv) string {
+	stepT := c.block(lk.body.List, body, func(e ptEnv) string {
 		for n, v := range cur {
 			if v.sh == ptErr && (e[n].sh != ptErr || e[n].konst != v.konst) {
 				dieAt(s, "error variable %s is carried around the loop", n)
 			}
 		}
-		return strings.Join(strings.Fields("("+hole+" "+stateOf(e)+" "+idxNext+tail+")"), " ")
+		return strings.Join(strings.Fields("("+hole+" "+stateOf(e)+" "+recur+")"), " ")
 	})
 	c.inLoop = false
 	c.curXs, c.curIx = "", ""
 	restT := after(inner)
 	used := tokens(stepT + "\n" + restT)
-	avail := map[string]bool{"X": true}
+	avail := map[string]bool{"X": true, "R": true, "self": true}
 	var walk func(v ptVal_)
 	walk = func(v ptVal_) {
 		for tk := range tokens(v.e) {
@@ -1185,13 +1584,13 @@ func (c *ptCtx) rangeStmt(s *ast.RangeStmt, cur ptEnv, after func(ptEnv) string)
 	if len(stPats) > 0 {
 		stPat = strings.Join(stPats, ", ") + ", "
 	}
-	sig := strings.Join(append(stTypes, idxT+"List PathStep → "+c.u.retType()), " → ")
-	c.t.out = append(c.t.out, fmt.Sprintf("/-- the `for %s := range %s` loop of `%s`, and what follows it -/\ndef %s%s : %s\n  | %s%s%s :: %s =>\n%s\n  | %s%s[] =>\n%s\n",
-		rangeVars(s), src(s.X), c.u.key,
+	sig := strings.Join(append(stTypes, sigT+" → "+c.u.retType()), " → ")
+	c.t.out = append(c.t.out, fmt.Sprintf("/-- the `%s` loop of `%s`, and what follows it -/\ndef %s%s : %s\n  | %s%s =>\n%s\n  | %s%s =>\n%s\n",
+		lk.descr, c.u.key,
 		name, strings.TrimSuffix(" "+strings.Join(capDecl, " "), " "), sig,
-		stPat, idxPat, head, tail, indent(indent(stepT)),
-		stPat, idxUnder, indent(indent(restT))))
-	return wrap(xb, "("+strings.Join(strings.Fields(headT+" "+strings.Join(stInit, " ")+" "+idxInit+x.e), " ")+")")
+		stPat, stepPat, indent(indent(stepT)),
+		stPat, donePat, indent(indent(restT))))
+	return c.wrapT(cur, lk.pre, "("+strings.Join(strings.Fields(headT+" "+strings.Join(stInit, " ")+" "+initArgs), " ")+")")
 }
 
 // ---------------------------------------------------------------- expressions
@@ -1242,6 +1641,14 @@ func (c *ptCtx) expr(e ast.Expr, en ptEnv) ([]bind, ptVal_) {
 		if ts == "Path" && len(x.Elts) == 0 {
 			return nil, ptVal_{sh: ptPath, e: "([] : List PathStep)"}
 		}
+		if ts == "PathSet" && len(x.Elts) == 1 {
+			if kv, ok := x.Elts[0].(*ast.KeyValueExpr); ok && src(kv.Key) == "set" {
+				bs, v := c.expr(kv.Value, en)
+				if v.sh == ptSet {
+					return bs, ptVal_{sh: ptPSet, e: v.e}
+				}
+			}
+		}
 		if k := ptKindOf(ts); k != nil {
 			var bs []bind
 			got := map[string]string{}
@@ -1278,6 +1685,9 @@ func (c *ptCtx) expr(e ast.Expr, en ptEnv) ([]bind, ptVal_) {
 			if f, ok := v.fields[x.Sel.Name]; ok {
 				return bs, f
 			}
+		}
+		if v.sh == ptPSet && x.Sel.Name == "set" {
+			return bs, ptVal_{sh: ptSet, e: v.e}
 		}
 		dieAt(x, "selector %s", src(x))
 	case *ast.UnaryExpr:
@@ -1386,7 +1796,7 @@ func (c *ptCtx) binary(x *ast.BinaryExpr, en ptEnv) ([]bind, ptVal_) {
 		}
 		// the right operand can panic: it is evaluated only if the left one does not decide
 		n := c.fresh("c", "Bool")
-		rhs := wrap(rb, "(Res.ok "+r.e+")")
+		rhs := wrap(rb, "(Res.ok "+r.e+")") // a nested computation of a Bool: plain Res
 		if and {
 			return append(lb, bind{n, "(if " + l.e + " then\n" + indent(rhs) + "\nelse\n  (Res.ok false))"}), ptBoolV(n)
 		}
@@ -1484,8 +1894,73 @@ func (c *ptCtx) unitCall(key string, recv []string, call *ast.CallExpr, en ptEnv
 	return bs, c.callText(u, append(recv, args...)), u.rets, u.hasErr, true
 }
 
+// tracedCall: a call of the callback parameter, or of a function that takes one.  kind "" = neither.
+// cb: text : Res …, and the log afterwards is logAfter; unit: text : List Walk.Visit × Res …
+func (c *ptCtx) tracedCall(call *ast.CallExpr, en ptEnv) (kind string, bs []bind, text, logAfter string, rets []ptShape, hasErr bool) {
+	id, ok := call.Fun.(*ast.Ident)
+	if !ok {
+		return
+	}
+	if v, ok := en[id.Name]; ok {
+		if v.sh != ptCb {
+			return
+		}
+		bs, args := c.argsOf(call, en, []ptShape{ptPath, ptVal})
+		log := en[ptLogKey].e
+		return "cb", bs, "(" + v.e + " " + log + " " + args[0] + " " + args[1] + ")", "(" + log + " ++ [(" + args[0] + ", " + args[1] + ")])", []ptShape{ptBool}, true
+	}
+	fd := c.t.funcs[id.Name]
+	if fd == nil || fd.Recv != nil {
+		return
+	}
+	takesCb := false
+	for _, f := range fd.Type.Params.List {
+		if _, ok := f.Type.(*ast.FuncType); ok {
+			takesCb = true
+		}
+	}
+	if !takesCb {
+		return
+	}
+	if !c.u.traced {
+		dieAt(call, "call of %s, which takes a callback, from a function that has none", id.Name)
+	}
+	u := c.t.ensure(id.Name, call)
+	if call.Ellipsis.IsValid() || len(call.Args) != len(u.goParams) {
+		dieAt(call, "call %s", src(call))
+	}
+	var args []string
+	for i, a := range call.Args {
+		b, v := c.expr(a, en)
+		if u.goParams[i].sh == ptCb { // the callback is handed on as it is
+			if v.sh != ptCb {
+				dieAt(a, "argument %s", src(a))
+			}
+			continue
+		}
+		b2, e := c.coerce(a, v, u.goParams[i].sh)
+		bs = append(append(bs, b...), b2...)
+		args = append(args, e)
+	}
+	head := "self"
+	if !u.inProgress {
+		head = u.name
+		if u.needsX {
+			head += " X"
+		}
+		if u.needsR {
+			head += " R"
+		}
+		head += " " + c.u.cbLean
+	}
+	return "unit", bs, "(" + head + " " + en[ptLogKey].e + " " + strings.Join(args, " ") + ")", "", u.rets, u.hasErr
+}
+
 // callRaw translates a call into a Lean term; isRes: the term is a `Res`
 func (c *ptCtx) callRaw(call *ast.CallExpr, en ptEnv) (bs []bind, text string, rets []ptShape, hasErr, isRes bool) {
+	if kind, _, _, _, _, _ := c.tracedCall(call, en); kind != "" {
+		dieAt(call, "call %s: a call of (a function with) a callback is translated only as `x…, err := f(…)` or `return f(…)`", src(call))
+	}
 	switch f := call.Fun.(type) {
 	case *ast.ArrayType: // []byte(s)
 		if src(f) == "[]byte" && len(call.Args) == 1 {
@@ -1508,7 +1983,28 @@ func (c *ptCtx) callRaw(call *ast.CallExpr, en ptEnv) (bs []bind, text string, r
 				}
 			}
 			dieAt(call, "call %s", src(call))
+		case "append":
+			if len(call.Args) == 2 {
+				bs, a := c.expr(call.Args[0], en)
+				bs2, b := c.expr(call.Args[1], en)
+				if a.sh == ptPaths && b.sh == ptPath {
+					return append(bs, bs2...), "(" + a.e + " ++ [" + b.e + "])", []ptShape{ptPaths}, false, false
+				}
+				if a.sh == ptPath && (b.sh == ptStruct || b.sh == ptStep) {
+					_, be := c.coerce(call.Args[1], b, ptStep)
+					return append(bs, bs2...), "(" + a.e + " ++ [" + be + "])", []ptShape{ptPath}, false, false
+				}
+			}
+			dieAt(call, "call %s", src(call))
 		case "make":
+			if len(call.Args) == 3 && src(call.Args[0]) == "[]Path" && src(call.Args[1]) == "0" {
+				bs, n := c.expr(call.Args[2], en)
+				n = ptToInt(n)
+				if n.sh == ptInt {
+					c.t.use("make([]Path, 0, n)", "PathGo.makePaths")
+					return bs, "(PathGo.makePaths " + n.e + ")", []ptShape{ptPaths}, false, true
+				}
+			}
 			if len(call.Args) == 2 && src(call.Args[0]) == "Path" {
 				bs, n := c.expr(call.Args[1], en)
 				n = ptToInt(n)
@@ -1613,6 +2109,33 @@ func (c *ptCtx) callRaw(call *ast.CallExpr, en ptEnv) (bs []bind, text string, r
 			return add(c.unitCall(r.kind.goType+"."+f.Sel.Name, recv, call, en))
 		case ptEmpty:
 			return add(c.unitCall("pathSetRules."+f.Sel.Name, nil, call, en))
+		case ptIter:
+			if v, ok := r.fields[f.Sel.Name]; ok && len(call.Args) == 0 {
+				return rb, v.e, []ptShape{v.sh}, false, false
+			}
+		case ptSet:
+			switch f.Sel.Name {
+			case "Length":
+				if len(call.Args) == 0 {
+					c.t.use("set.Set[Path].Length", "SetImpl.length")
+					return rb, "(Int.ofNat (SetImpl.length " + r.e + "))", []ptShape{ptInt}, false, false
+				}
+			case "Has":
+				bs, args := c.argsOf(call, en, []ptShape{ptPath})
+				c.t.use("set.Set[Path].Has", "SetImpl.has R")
+				return append(rb, bs...), "(SetImpl.has R " + r.e + " " + args[0] + ")", []ptShape{ptBool}, false, false
+			case "Union", "Intersection", "Subtract", "SymmetricDifference":
+				lean := "SetImpl." + strings.ToLower(f.Sel.Name[:1]) + f.Sel.Name[1:]
+				bs, args := c.argsOf(call, en, []ptShape{ptSet})
+				c.t.use("set.Set[Path]."+f.Sel.Name, lean+" R")
+				return append(rb, bs...), "(" + lean + " R " + r.e + " " + args[0] + ")", []ptShape{ptSet}, false, false
+			}
+		case ptPSet:
+			bs, text, rets, hasErr, isRes := c.unitCall("PathSet."+f.Sel.Name, []string{r.e}, call, en)
+			if c.t.units["PathSet."+f.Sel.Name].proc {
+				dieAt(call, "call %s used as a value", src(call))
+			}
+			return add(bs, text, rets, hasErr, isRes)
 		case ptStep: // a method call through the interface: one arm per implementation
 			var arms []string
 			var u0 *ptUnit
@@ -1711,17 +2234,17 @@ func translatePathFns(repo, leanDir, hdr string) int {
 	}
 	for _, r := range ptRoots {
 		if t.funcs[r] == nil {
-			die("translate: %s not found in cty/path.go, cty/path_set.go", r)
+			die("translate: %s not found in cty/path.go, cty/path_set.go, cty/walk.go", r)
 		}
 		t.ensure(r, t.funcs[r])
 	}
 	var b strings.Builder
-	b.WriteString(hdr + "-- Translation of the path machinery of cty/path.go and cty/path_set.go (extract/translate_path.go); tied to the\n-- hand-written model CtyModel/Path.lean, PathSet.lean by CtyModel/Lemmas/PathFnsTie.lean.\n--\n")
+	b.WriteString(hdr + "-- Translation of the path machinery of cty/path.go, cty/path_set.go and of Walk (cty/walk.go) (extract/translate_path.go);\n-- tied to the hand-written model CtyModel/Path.lean, PathSet.lean, Walk.lean by CtyModel/Lemmas/PathFnsTie.lean.\n--\n")
 	b.WriteString("-- TRANSLATED from the source text (a Go panic is `Res.panic`; a `(T…, error)` result is `Res (T…)`, a non-nil error\n-- `Res.err` of its class tag; `X : SetOracle` is what the model is told about set iteration, used by RawEquals only):\n")
 	for _, u := range t.order {
 		fmt.Fprintf(&b, "--   %s  (%s)\n", u.key, u.lines)
 	}
-	b.WriteString("-- NOT translated: GoString (both), the PathSet methods that only forward to cty/set; everything the functions above\n-- call outside the two files is the GIVEN API (CtyModel/PathGo.lean and the hand-written operations model), assumed to be\n-- what the code does:\n")
+	b.WriteString("-- (`R` = the rules of the wrapped set.Set[Path]; a traced function takes and returns the log of callback invocations.)\n-- NOT translated: GoString (both), NewPathSet (variadic), Transform / TransformWithTransformer / transform (Go maps,\n-- an interface-typed callback); everything the functions above call outside the three files is the GIVEN API\n-- (CtyModel/PathGo.lean and the hand-written operations / set / walk model), assumed to be what the code does:\n")
 	var names []string
 	for n := range t.used {
 		names = append(names, n)
